@@ -190,6 +190,7 @@ func verifC03Tick() {
 		verifBaseOf(sp.Remote).setLastReceived(verifNow())
 	}
 	before := w.snap()
+	verifStepBegin()
 	a.getSelector().ContactCandidates()
 	after := w.snap()
 
